@@ -32,3 +32,39 @@ CHECKS["C13"] = {
     "text": "Generated AutonomousStateMachine subclasses run 1-4 autonomous periods (on_enable / on_iteration / on_disable, disable mid-run, many post-end iterations); every state-function call and argument is compared with a twin StateMachine of identical shape that is engage()d before every iteration at the same clock values; after done()/last-state expiry no state function may run and is_executing must stay False until the next on_enable, which must start at the first state with tm 0.",
     "note": "twin and machine share the StateMachine core, so defects of the core itself are C01-C04's business, by design; trusts the paused HAL clock",
 }
+
+CHECKS["C17"] = {
+    "engine": "p_sharp",
+    "technique": "runtime monitor: real drivers fed through AnalogInputSim, closed-form oracle, exhaustive over all 4096 ADC codes x 3 models plus bit-pattern-sampled doubles",
+    "ref": "DESIGN.md section 6 (C17)",
+    "text": "Every ADC code, special doubles (+-0, negatives, denormals, huge, +-inf) and random doubles are pushed through the simulator into the three real drivers; each reading must be finite, inside the documented range, equal to the datasheet power law (rel 1e-9) where the law lies inside the range, clamped otherwise, and non-increasing over the sorted sample; the sim helpers must invert the driver (reading == clamp(d)) and report the distance that was set.",
+    "note": "trusts AnalogInputSim to deliver the voltage unchanged (probed); NaN excluded as in the quantifier",
+}
+CHECKS["C18"] = {
+    "engine": "p_units",
+    "technique": "runtime monitor: differential oracle in exact rational arithmetic over all 64 unit triples, random user-defined unit chains, real sonar/pressure drivers fed through the simulator",
+    "ref": "DESIGN.md section 6 (C18)",
+    "text": "units.convert is compared with exact rational arithmetic (identity, round trip, composition, homogeneity, additivity, named ratios) on all ordered triples of the defined units and on random user-defined chains of depth up to 8; MaxSonar pulse-width/analog drivers for every output unit and the REV pressure sensor (any V incl. 0/negative/inf, Vcc incl. 0, calibration pressure >= 0) are read through real driver objects and compared with the statement's formulas.",
+    "note": "Counter.getPeriod has no simulator setter: a stub counter object is substituted (as the repository's own test does); values whose exact result leaves the double range are not compared",
+}
+CHECKS["C12"] = {
+    "engine": "p_smdef",
+    "technique": "runtime monitor: exhaustive enumeration of forbidden names / signatures plus generated class hierarchies, expected-outcome oracle computed from the statement",
+    "ref": "DESIGN.md section 5 (C12)",
+    "text": "Every attribute name of StateMachine x 3 decorators, every illegal signature element and all 16 legal parameter subsets, aliasing, non-StateMachine owners and direct calls are executed against the real decorators; random single/linear/diamond hierarchies with overriding by states and non-states are instantiated and the outcome compared with (k first, j default) computed through Python's own MRO; for accepted machines state_names / state_descriptions (attribute and NetworkTables) are checked for set equality, ordering constraints and alignment.",
+    "note": "order between sibling bases and the position of overridden states are don't-cares; annotation-only names are reported, not judged",
+}
+CHECKS["C19"] = {
+    "engine": "p_controls",
+    "technique": "runtime monitor: random sample/record/op sequences under the paused FPGA clock (substituted monotonic clock for PeriodicFilter) against edge-detector and rate-limit trace rules",
+    "ref": "DESIGN.md section 6 (C19)",
+    "text": "Toggle (fake and real wpilib.Joystick through DriverStationSim, all four accessors, with/without debounce), ButtonDebouncer, PeriodicFilter and SimpleWatchdog are driven through random sequences with landings exactly on / 1us around the period; the monitors check one flip per sampled released-to-pressed edge, on == not off, spacing of changes / True results / passed low-level records / warnings, True only when pressed, required True after a period, bypass-level records always passed, isExpired() == (elapsed > timeout) in whole microseconds.",
+    "note": "ties on inexactly representable operands accepted; ButtonDebouncer before its first True is a don't-care while FPGA time <= period",
+}
+CHECKS["C15"] = {
+    "engine": "p_stateful",
+    "technique": "runtime monitor: generated StatefulAutonomous subclasses over multi-period scripted tm sequences against a set-valued executable reference model",
+    "ref": "DESIGN.md section 5 (C15)",
+    "text": "Generated modes (chains, loops, branches, self re-entry, all 16 parameter subsets) run 1-4 autonomous periods on one instance with regular, jittered, late-starting and boundary-exact tm sequences, scripted next_state()/done(), dashboard-edited durations and registered variables; which state runs and its tm / state_tm / initial_call are compared per iteration with a model written from the statement (strict on the 1/64 s grid, ties elsewhere).",
+    "note": "trusts local NetworkTables SmartDashboard table semantics; model in vf/p_stateful.py",
+}
